@@ -94,7 +94,7 @@ def run(tier):
     validate(ck, wd, "deep", t5)
     for i in range(1 if tier == "quick" else 8):
         t3 = os.path.join(wd, "drive_%d.ndjson" % i)
-        res = vlib.run_harness("fv-total", ["c02", "corpus", "--seed", vlib.seed() + i, "--mutations", 12 if tier == "quick" else 60, "--field-stride", 12 if tier == "quick" else 3, "--out", t3], timeout=3400)
+        res = vlib.run_harness("fv-total", ["c02", "corpus", "--seed", vlib.seed() + i, "--mutations", 12 if tier == "quick" else 60, "--field-stride", 36 if tier == "quick" else 4, "--out", t3], timeout=3400)
         ck.add_harness("drive:%d" % i, res, traces=False)
         validate(ck, wd, "drive:%d" % i, t3)
     return ck.finish()
